@@ -92,6 +92,7 @@ class Eval(object):
         self.ret = None
         self.insts_seen = []
         self.calls = []
+        self.oracle = None    # optional: (condition term, br instruction) -> True / False / None
 
     # ---- values -----------------------------------------------------------
     def cbv(self, c):
@@ -380,8 +381,13 @@ class Eval(object):
                         c = self.val(ops[0])
                         # operand order of a conditional br in LLVM: cond, false-dest, true-dest
                         fdest, tdest = ops[1]['id'], ops[2]['id']
+                        dec = self.oracle(c, inst) if (self.oracle is not None and not T.is_const(c)) else None
                         if T.is_const(c):
                             nxt = tdest if T.const_val(c) else fdest
+                        elif dec is not None:
+                            # a caller-supplied decision for this branch (used to analyse one whole-batch tier at a time)
+                            self.assumed.append(('is' if dec else 'not', c, inst))
+                            nxt = tdest if dec else fdest
                         else:
                             ta, fa = self.is_assert_block(blocks[tdest]), self.is_assert_block(blocks[fdest])
                             if ta and not fa:
